@@ -128,6 +128,15 @@ class Setup:
     def w(self, word):
         return [self.names[i] for i in word]
 
+    def full_L(self, L):
+        """a small finite group is enumerated completely (and one step beyond its longest
+        element), whatever the length bound of the case"""
+        if self.type == "spherical":
+            f = self.tits.full_length()
+            if f is not None:
+                return max(L, f)
+        return L
+
     def cut(self, s):
         """concatenated word -> tuple of generator indices"""
         k = self.width
@@ -265,7 +274,7 @@ def exhaustive_domains(scale=1.0, with_rank4=True):
 # law 1: the two oracles agree (harness-internal)
 def body_oracles(case, ctx):
     S = Setup(case, ctx)
-    L = case["L"]
+    L = S.full_L(case["L"])
     S.label(ctx, L)
     R = T.RootOracle(S.m)
     spheres = S.tits.ball(L)
@@ -328,7 +337,7 @@ def body_oracles(case, ctx):
 def language_body(shortlex):
     def body(case, ctx):
         S = Setup(case, ctx)
-        L = case["L"]
+        L = S.full_L(case["L"])
         S.label(ctx, L)
         aut = S.G.automaton(shortlex=shortlex)
         spheres = S.tits.ball(L + 1)
@@ -397,7 +406,7 @@ def language_body(shortlex):
 # law 4: exactly one shortlex word per element
 def body_one_word(case, ctx):
     S = Setup(case, ctx)
-    L = case["L"]
+    L = S.full_L(case["L"])
     S.label(ctx, L)
     sl = S.G.automaton()                # shortlex=True is the default
     geo = S.G.automaton(shortlex=False)
@@ -436,8 +445,10 @@ def body_one_word(case, ctx):
 def even_body(part):
     def body(case, ctx):
         S = Setup(case, ctx)
-        L = case["L"]
-        L -= L % 2
+        L = S.full_L(case["L"])
+        if part == "queries" and S.n >= 3:
+            L = min(L, 6)            # (the language itself is the business of the other part)
+        L += L % 2
         S.label(ctx, L)
         spheres = S.tits.ball(L)
 
@@ -540,7 +551,7 @@ def even_body(part):
 # law 6: growth series
 def body_growth(case, ctx):
     S = Setup(case, ctx)
-    L = case["L"]
+    L = S.full_L(case["L"])
     S.label(ctx, L)
     spheres = S.tits.ball(L)
     sl = S.G.automaton(shortlex=True)
@@ -732,24 +743,28 @@ def body_long(case, ctx):
 def body_state_cover(case, ctx):
     S = Setup(case, ctx)
     RX = T.RootOracle(S.m, exact=True, prec=90)
+    memo = {}
     deepest = 0
-    for shortlex in (False, True):
-        aut = S.G.automaton(shortlex=shortlex)
+
+    def cover(aut, shortlex, backwards):
         tag = "shortlex" if shortlex else "geodesic"
+
+        def status(w):
+            key = (shortlex, w)
+            if key not in memo:
+                memo[key] = RX.is_shortlex(w) if shortlex else RX.is_reduced(w)
+            return memo[key]
         start = aut.start_vertices[0]
         rep = {start: ()}
         order = [start]
         for v in order:
-            for lab, h in sorted(aut.graph_dict[v].items(), key=lambda kv: S.names.index(kv[0])):
+            for lab, h in sorted(aut.graph_dict[v].items(), key=lambda kv: S.names.index(kv[0]),
+                                 reverse=backwards):
                 if h not in rep:
                     rep[h] = rep[v] + (S.names.index(lab),)
                     order.append(h)
         ctx.check(set(rep) == set(aut.vertices()), "every state is reachable from the start state",
                   unreachable=len(set(aut.vertices()) - set(rep)))
-        deepest = max(deepest, max(len(w) for w in rep.values()))
-
-        def status(w):
-            return RX.is_shortlex(w) if shortlex else RX.is_reduced(w)
         # all states when there are few, else the deepest ones and a spread of the others
         chosen = order if len(order) <= 60 else order[-30:] + order[1:-30:max(1, len(order) // 30)]
         for v in chosen:
@@ -778,6 +793,12 @@ def body_state_cover(case, ctx):
                               % (tag, "accepts" if got3 else "rejects"), word=S.w(w3),
                               other_word_of_the_state=S.w(rep[h]), matrix=S.m)
         ctx.label("states<=60" if len(order) <= 60 else "states>60")
+        return max(len(w) for w in rep.values())
+
+    for shortlex in (False, True):
+        aut = S.G.automaton(shortlex=shortlex)
+        for backwards in (False, True):       # two different breadth-first trees
+            deepest = max(deepest, cover(aut, shortlex, backwards))
     S.label(ctx, deepest)
     if deepest >= 12:
         ctx.label("depth>=12")
@@ -804,7 +825,7 @@ def _law(name, strategy, body, nontrivial, **kw):
 
 LAWS = [
     _law("oracles_agree", coxeter_case(), body_oracles, nt, quick=25, thorough=200, shards=(1, 4),
-         exhaustive=exhaustive_domains(scale=0.85)),
+         exhaustive=exhaustive_domains(scale=0.75)),
     _law("geodesic_language", coxeter_case(), language_body(False), nt, quick=40, thorough=300,
          shards=(1, 4), exhaustive=exhaustive_domains()),
     _law("shortlex_language", coxeter_case(), language_body(True), nt, quick=40, thorough=300,
